@@ -64,7 +64,7 @@ fn desc(with_transports: bool, n: u8) -> webauthn::PublicKeyCredentialDescriptor
     desc_v(with_transports, n, 0)
 }
 fn desc_v(with_transports: bool, n: u8, variant: u8) -> webauthn::PublicKeyCredentialDescriptor {
-    webauthn::PublicKeyCredentialDescriptor { ty: webauthn::PublicKeyCredentialType::PublicKey, id: vec![n; blen(variant, 16)].into(), transports: with_transports.then(|| vec![webauthn::AuthenticatorTransport::Usb, webauthn::AuthenticatorTransport::Internal]) }
+    webauthn::PublicKeyCredentialDescriptor { ty: webauthn::PublicKeyCredentialType::PublicKey, id: vec![n; blen(variant, 16)].into(), transports: with_transports.then(|| if n == 2 || variant == 2 { vec![webauthn::AuthenticatorTransport::Usb, webauthn::AuthenticatorTransport::Internal, webauthn::AuthenticatorTransport::Usb] } else { vec![webauthn::AuthenticatorTransport::Usb, webauthn::AuthenticatorTransport::Internal] }) }
 }
 fn prf_inputs(variant: u8) -> AuthenticatorPrfInputs {
     AuthenticatorPrfInputs {
@@ -136,12 +136,24 @@ fn build(ty: &str, pattern: u32, variant: u8) -> Result<(Vec<u8>, String), Strin
         }),
         "getInfo.response" => ser(&get_info::Response {
             versions: vec![get_info::Version::FIDO_2_0, get_info::Version::U2F_V2],
-            extensions: has(2).then(|| if variant == 4 { vec![] } else { vec![get_info::Extension::HmacSecret, get_info::Extension::Prf] }),
+            extensions: has(2).then(|| match variant {
+                4 => vec![],
+                2 => vec![get_info::Extension::Prf, get_info::Extension::HmacSecret, get_info::Extension::Prf],
+                _ => vec![get_info::Extension::HmacSecret, get_info::Extension::Prf],
+            }),
             aaguid: Aaguid::from([7; 16]),
             options: has(4).then(|| get_info::Options { plat: variant % 2 == 0, rk: true, client_pin: (variant >= 1 && variant != 4).then_some(false), up: true, uv: (variant >= 1 && variant != 4).then_some(true) }),
             max_msg_size: has(5).then(|| std::num::NonZeroU128::new(1200).unwrap()),
-            pin_protocols: has(6).then(|| if variant == 4 { vec![] } else { vec![1, 2] }),
-            transports: has(9).then(|| if variant == 4 { vec![] } else { vec![webauthn::AuthenticatorTransport::Internal, webauthn::AuthenticatorTransport::Hybrid] }),
+            pin_protocols: has(6).then(|| match variant {
+                4 => vec![],
+                2 => vec![2, 2, 1],
+                _ => vec![1, 2],
+            }),
+            transports: has(9).then(|| match variant {
+                4 => vec![],
+                2 => vec![webauthn::AuthenticatorTransport::Internal, webauthn::AuthenticatorTransport::Hybrid, webauthn::AuthenticatorTransport::Internal, webauthn::AuthenticatorTransport::Internal],
+                _ => vec![webauthn::AuthenticatorTransport::Internal, webauthn::AuthenticatorTransport::Hybrid],
+            }),
         }),
         _ => {
             let mut h = hmac_input(has(4));
@@ -417,7 +429,7 @@ pub fn run(ctx: &Ctx) -> Result<Run, String> {
     }
     let mut run = Run::from_stats(
         "exploration",
-        "for each of the six CTAP2 message types: all presence patterns of the optional members x 4 nested-value variants (one with every nested optional structure and list present but empty; plus a variant with byte-string members of more than 4 KiB), serialised with ciborium and inspected as a generic CBOR value (one map spanning all serialised bytes; keys = the specification's integers for the present members, ascending, no nulls), round-tripped; mutations of the encodings: every integer key 0..255 not assigned to a member inserted (every position for the full pattern, at the end otherwise; all positions in thorough) with int/map/bytes values, unknown text keys at every position, each required member removed, each present member duplicated, options omitted / empty; all 256 status bytes converted both ways and injected as lookup failure under Client::authenticate. Every case is distinct",
+        "for each of the six CTAP2 message types: all presence patterns of the optional members x 4 nested-value variants (one with repeated entries in every list, one with every nested optional structure and list present but empty; plus a variant with byte-string members of more than 4 KiB), serialised with ciborium and inspected as a generic CBOR value (one map spanning all serialised bytes; keys = the specification's integers for the present members, ascending, no nulls), round-tripped; mutations of the encodings: every integer key 0..255 not assigned to a member inserted (every position for the full pattern, at the end otherwise; all positions in thorough) with int/map/bytes values, unknown text keys at every position, each required member removed, each present member duplicated, options omitted / empty; all 256 status bytes converted both ways and injected as lookup failure under Client::authenticate. Every case is distinct",
         true,
         stats,
     );
